@@ -27,28 +27,30 @@ theorem dataset_eq_dataarray (s : State) (n : String) :
 /-- number of in-place edits of each kind in a history -/
 def nEdits (h : List Op) : Nat := (h.filter (· == Op.editEfth)).length
 def nAssign (h : List Op) : Nat := (h.filter (· == Op.assignDir)).length
+def nAssignF (h : List Op) : Nat := (h.filter (· == Op.assignFreq)).length
 
 theorem run_versions (s : State) (h : List Op) :
-    (run stepNew s h).1.efthVer = s.efthVer + nEdits h ∧ (run stepNew s h).1.dirVer = s.dirVer + nAssign h := by
+    (run stepNew s h).1.efthVer = s.efthVer + nEdits h ∧ (run stepNew s h).1.dirVer = s.dirVer + nAssign h ∧
+      (run stepNew s h).1.freqVer = s.freqVer + nAssignF h := by
   induction h generalizing s with
-  | nil => simp [run, nEdits, nAssign]
+  | nil => simp [run, nEdits, nAssign, nAssignF]
   | cons op ops ih =>
     have := ih (stepNew s op).1
     simp only [run]
-    cases op <;> simp_all [stepNew, nEdits, nAssign, List.filter_cons] <;> omega
+    cases op <;> simp_all [stepNew, nEdits, nAssign, nAssignF, List.filter_cons] <;> omega
 
 /-- the observation depends on the history only through the contents it produced: two histories with the same
     edits give the same result for every observed operation, whatever else they contain (other accessor calls,
     partition calls on other shapes, attribute look-ups, failing calls, reader calls) -/
 theorem history_irrelevant (h1 h2 : List Op) (op : Op)
-    (he : nEdits h1 = nEdits h2) (ha : nAssign h1 = nAssign h2) :
+    (he : nEdits h1 = nEdits h2) (ha : nAssign h1 = nAssign h2) (hf : nAssignF h1 = nAssignF h2) :
     lastObs stepNew h1 op = lastObs stepNew h2 op := by
   rw [observation_fresh, observation_fresh]
   unfold freshObs fresh
   have a := run_versions {} h1
   have b := run_versions {} h2
   simp only at a b
-  rw [a.1, a.2, b.1, b.2, he, ha]
+  rw [a.1, a.2.1, a.2.2, b.1, b.2.1, b.2.2, he, ha, hf]
 
 /-- observations never depend on which grid shape the C routine last saw -/
 theorem cshape_irrelevant (s : State) (sh : Option (Nat × Nat)) (op : Op) :
@@ -82,28 +84,29 @@ theorem old_attr_autoviv_witness :
 
 /-- histories without in-place edits and attribute look-ups -/
 def Quiet (h : List Op) : Prop :=
-  ∀ op ∈ h, op ≠ Op.editEfth ∧ op ≠ Op.assignDir ∧ ∀ k, op ≠ Op.attrLookup k
+  ∀ op ∈ h, op ≠ Op.editEfth ∧ op ≠ Op.assignDir ∧ op ≠ Op.assignFreq ∧ ∀ k, op ≠ Op.attrLookup k
 
 def OldInv (s : State) : Prop :=
-  s.efthVer = 0 ∧ s.dirVer = 0 ∧ (s.bound = none ∨ s.bound = some 0) ∧
+  s.efthVer = 0 ∧ s.dirVer = 0 ∧ s.freqVer = 0 ∧ (s.bound = none ∨ s.bound = some 0) ∧
     (s.ddMemo = none ∨ s.ddMemo = some (0, 0)) ∧ s.inserted = []
 
 theorem oldInv_step (s : State) (op : Op) (hi : OldInv s)
-    (hq : op ≠ Op.editEfth ∧ op ≠ Op.assignDir ∧ ∀ k, op ≠ Op.attrLookup k) :
+    (hq : op ≠ Op.editEfth ∧ op ≠ Op.assignDir ∧ op ≠ Op.assignFreq ∧ ∀ k, op ≠ Op.attrLookup k) :
     OldInv (stepOld s op).1 ∧ (stepOld s op).2 = (stepNew {} op).2 := by
-  obtain ⟨h1, h2, h3, h4, h5⟩ := hi
+  obtain ⟨h1, h2, h2f, h3, h4, h5⟩ := hi
   cases op with
   | statDs n =>
     rcases h3 with h3 | h3 <;> rcases h4 with h4 | h4 <;>
-      simp [stepOld, stepNew, OldInv, h1, h2, h3, h4, h5]
+      simp [stepOld, stepNew, OldInv, h1, h2, h2f, h3, h4, h5]
   | statDa n =>
-    rcases h4 with h4 | h4 <;> simp [stepOld, stepNew, OldInv, h1, h2, h3, h4, h5]
+    rcases h4 with h4 | h4 <;> simp [stepOld, stepNew, OldInv, h1, h2, h2f, h3, h4, h5]
   | editEfth => exact absurd rfl hq.1
   | assignDir => exact absurd rfl hq.2.1
-  | partition a b => exact ⟨⟨h1, h2, h3, h4, h5⟩, rfl⟩
-  | attrLookup k => exact absurd rfl (hq.2.2 k)
-  | unknownStat => exact ⟨⟨h1, h2, h3, h4, h5⟩, rfl⟩
-  | read => exact ⟨⟨h1, h2, h3, h4, h5⟩, rfl⟩
+  | assignFreq => exact absurd rfl hq.2.2.1
+  | partition a b => exact ⟨⟨h1, h2, h2f, h3, h4, h5⟩, rfl⟩
+  | attrLookup k => exact absurd rfl (hq.2.2.2 k)
+  | unknownStat => exact ⟨⟨h1, h2, h2f, h3, h4, h5⟩, rfl⟩
+  | read => exact ⟨⟨h1, h2, h2f, h3, h4, h5⟩, rfl⟩
 
 theorem oldInv_run (s : State) (h : List Op) (hi : OldInv s) (hq : Quiet h) : OldInv (run stepOld s h).1 := by
   induction h generalizing s with
@@ -113,7 +116,8 @@ theorem oldInv_run (s : State) (h : List Op) (hi : OldInv s) (hq : Quiet h) : Ol
     exact ih _ (oldInv_step s op hi (hq op (by simp))).1 (fun o ho => hq o (by simp [ho]))
 
 theorem newRun_quiet (s : State) (h : List Op) (hq : Quiet h) :
-    (run stepNew s h).1.efthVer = s.efthVer ∧ (run stepNew s h).1.dirVer = s.dirVer := by
+    (run stepNew s h).1.efthVer = s.efthVer ∧ (run stepNew s h).1.dirVer = s.dirVer ∧
+      (run stepNew s h).1.freqVer = s.freqVer := by
   induction h generalizing s with
   | nil => simp [run]
   | cons op ops ih =>
@@ -124,14 +128,14 @@ theorem newRun_quiet (s : State) (h : List Op) (hq : Quiet h) :
 
 /-- the code as found was already correct on histories without in-place edits or attribute look-ups -/
 theorem old_observation_fresh_partial (h : List Op) (op : Op) (hq : Quiet h)
-    (hop : op ≠ Op.editEfth ∧ op ≠ Op.assignDir ∧ ∀ k, op ≠ Op.attrLookup k) :
+    (hop : op ≠ Op.editEfth ∧ op ≠ Op.assignDir ∧ op ≠ Op.assignFreq ∧ ∀ k, op ≠ Op.attrLookup k) :
     lastObs stepOld h op = freshObs stepOld h op := by
   unfold lastObs freshObs
-  have hi := oldInv_run {} h ⟨rfl, rfl, Or.inl rfl, Or.inl rfl, rfl⟩ hq
+  have hi := oldInv_run {} h ⟨rfl, rfl, rfl, Or.inl rfl, Or.inl rfl, rfl⟩ hq
   rw [(oldInv_step _ op hi hop).2]
   have hv := newRun_quiet {} h hq
   have hf : OldInv (fresh (run stepNew {} h).1) := by
-    refine ⟨hv.1, hv.2, Or.inl rfl, Or.inl rfl, rfl⟩
+    refine ⟨hv.1, hv.2.1, hv.2.2, Or.inl rfl, Or.inl rfl, rfl⟩
   rw [(oldInv_step _ op hf hop).2]
 
 example : Quiet [.statDs "hs", .partition 3 4, .unknownStat, .read, .statDa "tp"] := by
@@ -139,7 +143,7 @@ example : Quiet [.statDs "hs", .partition 3 4, .unknownStat, .read, .statDa "tp"
   simp at hop
   rcases hop with rfl | rfl | rfl | rfl | rfl <;> simp
 
-example : lastObs stepNew [.statDs "hs", .editEfth, .assignDir, .partition 2 2] (.statDs "hs") = some ⟨1, 1, true⟩ := by
+example : lastObs stepNew [.statDs "hs", .editEfth, .assignDir, .partition 2 2] (.statDs "hs") = some ⟨1, 1, 0, true⟩ := by
   decide
 
 end WS.C18
